@@ -93,12 +93,78 @@ P["C10"] = dict(
               "counted 0/1/2+), and element-wise value-graph comparison of written tuples with the tuple read",
     decides=["R-COUNT-OR-NAN: on every path through one iteration of every per-tuple loop the tuple is (written or "
              "passed) and counted once, or overwritten with NaN and not counted",
+             "R-EARLY-RETURN: every 'parameter missing => return 0' exit of an InnerOp is dead (key guaranteed)",
+             "R-DISPATCH-EXHAUSTIVE: every stored dispatch literal has an arm (no live default arm returning 0)",
              "R-ELEMENT-PRESERVE: for plane / 3D / single-element operators every written tuple keeps the elements "
              "the operator does not work on as copies of the same element of the tuple read"],
     not_decided=["NaN propagation through arithmetic", "which inputs are inside the domain"],
     level="Decides the counting/NaN discipline and untouched-axes clauses as all-paths properties of the operator "
           "loops; numerical domain questions are not decided.",
     design_ref="DESIGN.md section 3, C10",
+)
+
+P["C04"] = dict(
+    claimed=True,
+    technique="static analysis: call-graph cycle analysis with explicit fn-pointer edges, dominance of the depth "
+              "guard, provenance of re-entering calls, ranking functions for every loop of the resolution code",
+    decides=["R-REC-GUARD: every call cycle of the instantiation code passes through Op::op; nesting_too_deep() "
+             "dominates every re-entering call; re-entering callers pass RawParameters::next(..) frames; next() "
+             "increases the level by >= 1 on every path; the limit is a constant => nesting depth is bounded for "
+             "every resource graph, cycles of any length included",
+             "R-LOOP-RANK: every loop of op::*, token::*, context::* has a ranking function (finite iterator "
+             "advanced on every pass / monotone counter / unrefilled queue)"],
+    not_decided=["that $name, $name(d), (d) forms evaluate to the documented values", "precedence of values",
+                 "equivalence of an invocation with its textual expansion", "stack frame sizes (101 levels assumed to fit)"],
+    level="Decides termination of macro resolution (bounded recursion, terminating loops) as a structural proof "
+          "obligation set; the meaning of an expansion is not decided.",
+    design_ref="DESIGN.md section 3, C04",
+)
+P["C09"] = dict(
+    claimed=True,
+    technique="static analysis: key-availability dataflow between constructors and parameter-table readers, "
+              "validation-before-unwrap, ranking functions for all loops, recursion guard, ellipsoid table grammar",
+    decides=["R-KEY-AVAIL: every panicking keyed read of the parameter tables (unwrap of an accessor, map[key], "
+             "series_as_*) is backed by the gamut, the implicit keys, an insert on every Ok path, or a conditional "
+             "guarantee tied to the same dispatch literal / flag",
+             "R-ELLPS-VALIDATED: Ellipsoid::named(..).unwrap() is preceded by validation of every ellps* text in "
+             "ParsedParameters::new",
+             "R-LOOP-RANK: every loop reachable from instantiation/apply and in the ellipsoid, angular, token, grid "
+             "and coordinate modules has a ranking function",
+             "R-REC-GUARD: bounded recursion", "T-ELLPS(parse): every table string parsed with unwrap is valid f64 syntax"],
+    not_decided=["index arithmetic and slicing in general (455 clippy indexing sites; no bounds prover attempted)",
+                 "arithmetic overflow", "stack depth in bytes"],
+    level="Decides the named panic/hang mechanisms on all paths; does not decide absence of every possible panic.",
+    design_ref="DESIGN.md section 3, C09",
+)
+P["C12"] = dict(
+    claimed=True,
+    technique="static analysis: key-availability and dispatch-exhaustiveness between stack::new and stack_fwd/stack_inv",
+    decides=["R-KEY-AVAIL on the stack sub-commands: each arm reads the series its own sub-command stored",
+             "R-DISPATCH-EXHAUSTIVE: every action literal stored by stack::new has an arm in stack_fwd and stack_inv"],
+    not_decided=["abstract-machine equivalence of the primitives", "constructor-time numeric validation"],
+    level="Decides that the dispatch tables are total and read the right keys; the machine semantics are only "
+          "partially decided (see DESIGN.md).",
+    design_ref="DESIGN.md section 3, C12",
+)
+
+P["C15"] = dict(
+    claimed=True,
+    technique="static analysis: interprocedural affine bounds analysis of every read of the NTv2 byte buffer against "
+              "dominating length comparisons; zero-divisor guards; constructor-established invariants needed by the "
+              "query code; classification of every unwrap in grid::*; ranking functions; NTv2 record offsets vs the format",
+    decides=["R-BOUNDED-READ: every read of the NTv2 buffer (slice ranges, indexed bytes) reachable from "
+             "Ntv2Grid::new is dominated by a comparison with the buffer length that implies it is in bounds",
+             "R-DIV-GUARD: every integer division/remainder in grid::* has a constant non-zero divisor or a dominating "
+             "zero test", "R-GRID-INVARIANT: BaseGrid constructors establish rows >= 2 and cols >= 2 (needed by the "
+             "clamps and subtractions of BaseGrid::at)", "R-UNWRAP-GRID: every unwrap in grid::* is a constant-length "
+             "slice conversion, a constant-key lookup guaranteed by all constructors, or a reviewed site",
+             "R-ALLOC-BOUND: file-derived allocation sizes are compared with the buffer length first",
+             "R-LOOP-RANK: decoder and lookup loops terminate", "T-NTV2-OFFSETS: record offsets = 16k+8 in format order"],
+    not_decided=["faithfulness of decoded values", "endianness handling", "binary/ASCII agreement",
+                 "arithmetic overflow of header-derived products", "index arithmetic of BaseGrid::at beyond the row/col invariants"],
+    level="Decides the memory-safety style clauses (no out-of-bounds read, no division by zero, no unguarded unwrap, "
+          "no unbounded loop or allocation) of the grid decoders on all paths; value faithfulness is not decided.",
+    design_ref="DESIGN.md section 3, C15",
 )
 
 NA = {
